@@ -43,6 +43,11 @@ ASSUMPTIONS = [
     "adjustMassFrac: nucDir.getNuclideNames(nuclide / element) is a parameter (the name lists are read from the real "
     "directory); requests with nothing left to absorb the change (every nuclide adjusted or held) are only made with the "
     "unchanged value; the adjusted and the held names are disjoint (hypotheses of adjustDict_total, produced by the generator)",
+    "negative-volume children: no theorem assumes a child volume positive (only the sums divided by are non-zero, which the "
+    "harness checks on the real blocks); the zero-volume fallback of getVolumeFractions to areas is outside the model",
+    "run_core_negative changes the shared reference reactor and therefore runs last; in the quick tier the core level is judged by "
+    "the oracle only (the whole core is mirrored into the model in the thorough tier)",
+    "getMasses() is judged by the oracle only (sum and per nuclide against getMass, element names that getMass expands excluded)",
     "arbitrary-depth trees: generic composites have symmetry factor 1 and volume = sum of the children; blocks divide by "
     "their symmetry factor (Tree.SymOK / Tree.WF, evaluated on the real nested objects)",
 ]
@@ -1426,7 +1431,7 @@ def run_negative_gap(ctx):
 
     rng = random.Random(f"{ctx.prop}-{ctx.seed}-gap")
     third = grids.HexGrid.fromPitch(16.0, numRings=3, symmetry="third periodic")
-    for idx in range(ctx.pick(2, 16)):
+    for idx in range(ctx.pick(2, 10)):
         try:
             with common.quiet():
                 a, signs = gen_assembly_gap(rng, idx, third if rng.random() < 0.4 else None)
@@ -1581,7 +1586,7 @@ def run_core_negative(ctx, r):
             paths = mir.load(chosen, extra_nucs=("PU239", "AM241", "HE4"))
     targets = changed[:4] + chosen
     below = {k: v for k, v in paths.items() if k != id(core)}      # (the parent chain compared after an edit stops at the assembly)
-    for step in range(ctx.pick(3, 24)):
+    for step in range(ctx.pick(3, 12)):
         obj = rng.choice(targets)
         op, a_ = gen_edit(rng, obj, allow_absent=False)
         do_edit(ctx, mir, below, obj, op, a_, "core negative bond", 100 + step)
@@ -1628,7 +1633,7 @@ def run_dump_and_zero(ctx):
     rng = random.Random(f"{ctx.prop}-{ctx.seed}-dumpzero")
     third = grids.HexGrid.fromPitch(16.0, numRings=3, symmetry="third periodic")
     label = "dump and zero"
-    for idx in range(ctx.pick(2, 12)):
+    for idx in range(ctx.pick(2, 8)):
         try:
             with common.quiet():
                 a = gen_assembly(rng, 700 + idx, third if rng.random() < 0.4 else None)
@@ -1771,7 +1776,7 @@ def run_trees(ctx):
     # own generator (seeded from property + VERIF_SEED + stream name): the streams that existed before keep their draws
     rng = random.Random(f"{ctx.prop}-{ctx.seed}-trees")
     third = grids.HexGrid.fromPitch(16.0, numRings=3, symmetry="third periodic")
-    for idx in range(ctx.pick(2, 16)):
+    for idx in range(ctx.pick(2, 10)):
         nb = rng.randint(2, 5)
         try:
             with common.quiet():
@@ -1926,7 +1931,7 @@ def run_adjust(ctx):
 
     rng = random.Random(f"{ctx.prop}-{ctx.seed}-adjust")
     third = grids.HexGrid.fromPitch(16.0, numRings=3, symmetry="third periodic")
-    for idx in range(ctx.pick(2, 16)):
+    for idx in range(ctx.pick(2, 10)):
         try:
             with common.quiet():
                 a = gen_assembly(rng, 900 + idx, third if rng.random() < 0.4 else None)
@@ -2661,7 +2666,9 @@ def run(ctx):
                 "structural edits of an assembly's block list (insert, remove, height change; with and without re-meshing); "
                 "assemblies whose blocks hold a slightly negative / exactly zero / positive Void gap (fuel set or heated past the "
                 "clad's inner diameter): signed volume fractions, additivity and seeded edits at block and assembly level; "
-                "generic composites nested 1-4 levels deep over generated blocks (some cut by symmetry) compared node by node "
+                "dummy nuclides DUMP1 / DUMP2 with non-zero density, exact-zero requests at block and assembly level, "
+                "Block.mergeWithBlock incl. fraction 1.0; the reference core with negative / zero sodium bonds in centre, edge "
+                "and ordinary assemblies (core-level read-back and atoms chain); generic composites nested 1-4 levels deep over generated blocks (some cut by symmetry) compared node by node "
                 "with the arbitrary-depth Tree model, before and after edits at random nodes; adjustMassFrac (nuclide / element "
                 "to adjust, optional nuclide / element held constant, values incl. 0 and unchanged) at component, block and "
                 "assembly level, its setMassFracs argument captured and compared with the model's; "
